@@ -73,7 +73,6 @@ Proof.
     - change (l_timeouted l1) with (l_timeouted l). change (ecount s (gkp ((r :: rest) ++ due) xe (r :: rest) k) r) with (ecount s (gkp (r :: rest ++ due) xe (r :: rest) k) r).
       apply (ro_live _ _ _ _ (gi_rec _ _ G r l Hr)).
     - simpl. discriminate.
-    - simpl. tauto.
     - unfold gkp. gs. unfold liveb. change (l_timeouted l1) with (l_timeouted l). rewrite Z.add_simpl_r. reflexivity. }
   assert (Hr1 : aget (store (setl s r l1)) r = Some l1) by (rewrite store_setl, aget_aset_same; auto).
   assert (G2 : GInv (setl s r l1) (gkp (r :: rest ++ due) xe rest k)).
@@ -84,10 +83,10 @@ Proof.
   - (* answered meanwhile *)
     assert (G3 : GInv (unref (setl s r l1) r) (gkp (rest ++ due) xe rest k)).
     { eapply ginv_geq; [apply (unref_xt _ _ r (rest ++ due) l1 G2); auto|reflexivity]. }
-    apply IH. destruct (aget (store (unref (setl s r l1) r)) r); auto. apply remove_mgr_ginv; auto. intros _; split; reflexivity.
+    apply IH. destruct (aget (store (unref (setl s r l1) r)) r); auto. apply remove_mgr_ginv; auto.
   - apply IH.
     eapply ginv_geq; [apply (ginv_perm_x _ _ (rest ++ due ++ [r]) xe G2); [|reflexivity]|reflexivity].
-    intros r0. unfold gkp. gs. rewrite !occ_app, !occ_cons. simpl. lia.
+    intros r0. unfold gkp. gs. rewrite !occ_cons, !occ_app, !occ_cons. simpl. lia.
 Qed.
 
 Lemma sweep_long_e_ginv items : forall s xt k due,
@@ -104,7 +103,6 @@ Proof.
     - change (l_timeouted l1) with (l_timeouted l). change (ecount s (gkp xt ((r :: rest) ++ due) (r :: rest) k) r) with (ecount s (gkp xt (r :: rest ++ due) (r :: rest) k) r).
       apply (ro_live _ _ _ _ (gi_rec _ _ G r l Hr)).
     - simpl. discriminate.
-    - simpl. tauto.
     - unfold gkp. gs. unfold liveb. change (l_timeouted l1) with (l_timeouted l). rewrite Z.add_simpl_r. reflexivity. }
   assert (Hr1 : aget (store (setl s r l1)) r = Some l1) by (rewrite store_setl, aget_aset_same; auto).
   assert (G2 : GInv (setl s r l1) (gkp xt (r :: rest ++ due) rest k)).
@@ -114,8 +112,123 @@ Proof.
   destruct (l_expried l) eqn:Et; cbn [negb].
   - assert (G3 : GInv (unref (setl s r l1) r) (gkp xt (rest ++ due) rest k)).
     { eapply ginv_geq; [apply (unref_xe _ _ r (rest ++ due) l1 G2); auto|reflexivity]. }
-    apply IH. destruct (aget (store (unref (setl s r l1) r)) r); auto. apply remove_mgr_ginv; auto. intros _; split; reflexivity.
+    apply IH. destruct (aget (store (unref (setl s r l1) r)) r); auto. apply remove_mgr_ginv; auto.
   - apply IH.
     eapply ginv_geq; [apply (ginv_perm_x _ _ xt (rest ++ due ++ [r]) G2); [reflexivity|]|reflexivity].
-    intros r0. unfold gkp. gs. rewrite !occ_app, !occ_cons. simpl. lia.
+    intros r0. unfold gkp. gs. rewrite !occ_cons, !occ_app, !occ_cons. simpl. lia.
 Qed.
+
+(* ---------------------------------------------------------------- expiry wheel slot *)
+Lemma sweep_e_slot_ginv fuel : forall s xt k slot nowv due ev,
+  GInv s (gk xt due k) ->
+  GInv (fst (fst (sweep_e_slot fuel s slot nowv due ev))) (gk xt (snd (fst (sweep_e_slot fuel s slot nowv due ev))) k).
+Proof.
+  induction fuel as [|f IH]; intros s xt k slot nowv due ev G; simpl; [exact G|].
+  destruct (wheel_get (ewheel s) slot) as [|r rest] eqn:Ew; [exact G|].
+  pose proof (pop_e_ginv s _ slot r rest G Ew) as G1.
+  set (s1 := s <| ewheel := aset (ewheel s) slot rest |>) in *.
+  assert (G1' : GInv s1 (gk xt (r :: due) k)) by (eapply ginv_geq; [exact G1|reflexivity]).
+  assert (Gsn : GInv s1 (gk xt (due ++ [r]) k)).
+  { eapply ginv_geq; [apply (ginv_perm_x s1 _ xt (due ++ [r]) G1'); [reflexivity|intros r0; apply occ_snoc]|reflexivity]. }
+  destruct (aget (store s) r) as [l|] eqn:Hr0; [|exact Gsn].
+  assert (Hr : aget (store s1) r = Some l) by exact Hr0.
+  rewrite (getl_some _ _ _ Hr).
+  destruct (l_expried l) eqn:Et; cbn [negb].
+  - pose proof (unref_e_tail s1 xt k (l_key l) r due G1') as G2. cbv zeta in G2. apply IH. exact G2.
+  - destruct (nowv <? l_eT l)%Z.
+    + destruct (gi_rec _ _ G1' r l Hr) as [A1 A2 A3 A4 A5 A6 A7 A8 A9 A10 A11].
+      assert (Ht : l_timeouted l = true).
+      { destruct (l_timeouted l) eqn:E; auto. destruct (A6 eq_refl) as [_ [Q _]]. unfold ecount, gk in Q. gs. rewrite occ_cons_eq in Q. lia. }
+      assert (Hlong : l_long l = false).
+      { destruct (l_long l) eqn:El; auto. exfalso. destruct (A8 eq_refl eq_refl) as [_ Q]. specialize (Q Ht).
+        pose proof (occ_wheel_get_le r (elong s1) (lkey (l_eT l))). unfold ecount, gk in A5. gs. rewrite occ_cons_eq in A5. lia. }
+      rewrite (updl_some _ _ _ _ Hr).
+      set (l1 := l <| l_ecc := (l_ecc l + 1) mod 256 |>).
+      assert (G2 : GInv (setl s1 r l1) (gk xt (r :: due) k)).
+      { apply (setl_irrel s1 _ r l l1 G1' Hr); [unfold same_rel; intuition|intuition]. }
+      assert (Hr2 : aget (store (setl s1 r l1)) r = Some l1) by (rewrite store_setl, aget_aset_same; auto).
+      assert (G3 : GInv (fst (add_expried (setl s1 r l1) (l_key l) r)) (gk xt due k)).
+      { eapply ginv_geq; [eapply (add_expried_ginv _ _ (l_key l) r due l1 G2); unfold gk; gs; auto|reflexivity]. }
+      destruct (add_expried (setl s1 r l1) (l_key l) r) as [s3 aev]. cbn [fst] in G3. apply IH. exact G3.
+    + apply IH. exact Gsn.
+Qed.
+
+(* ---------------------------------------------------------------- one second of a sweeper *)
+Lemma collect_timeouts_ginv s xe k t nowv :
+  GInv s (gk [] xe k) ->
+  GInv (fst (collect_timeouts s t nowv)) (gk (snd (collect_timeouts s t nowv)) xe k).
+Proof.
+  intros G. unfold collect_timeouts.
+  pose proof (sweep_t_slot_ginv (10 * length (wheel_get (twheel s) (slot_of t)) + 10) s xe k (slot_of t) nowv [] G) as G1.
+  destruct (sweep_t_slot _ s (slot_of t) nowv []) as [s1 due]. cbn [fst snd] in G1.
+  destruct (aget (tlong s1) (lkey t)) as [items|] eqn:El; [|exact G1].
+  apply sweep_long_t_ginv.
+  eapply ginv_geq; [apply (bucket_t_ginv s1 _ (lkey t) items G1 El)|]. unfold gk, gkp. gs. rewrite app_nil_r. reflexivity.
+Qed.
+
+Lemma collect_expiries_ginv s xt k t nowv :
+  GInv s (gk xt [] k) ->
+  GInv (fst (fst (collect_expiries s t nowv))) (gk xt (snd (fst (collect_expiries s t nowv))) k).
+Proof.
+  intros G. unfold collect_expiries.
+  pose proof (sweep_e_slot_ginv (10 * length (wheel_get (ewheel s) (slot_of t)) + 10) s xt k (slot_of t) nowv [] [] G) as G1.
+  destruct (sweep_e_slot _ s (slot_of t) nowv [] []) as [[s1 due] ev]. cbn [fst snd] in G1.
+  destruct (aget (elong s1) (lkey t)) as [items|] eqn:El; [|exact G1].
+  assert (G2 : GInv (s1 <| elong := adel (elong s1) (lkey t) |>) (gkp xt (items ++ due) items k)).
+  { eapply ginv_geq; [apply (bucket_e_ginv s1 _ (lkey t) items G1 El)|]. unfold gk, gkp. gs. rewrite app_nil_r. reflexivity. }
+  pose proof (sweep_long_e_ginv items _ xt k due G2) as G3.
+  destruct (sweep_long (s1 <| elong := adel (elong s1) (lkey t) |>) items false due) as [s2 due2]. exact G3.
+Qed.
+
+Lemma fire_all_t_ginv due : forall s xe k, GInv s (gk due xe k) ->
+  exists k', GInv (fst (fire_all do_timeout s due)) (gk [] xe k').
+Proof.
+  induction due as [|r rest IH]; intros s xe k G; simpl; [eauto|].
+  destruct (do_timeout_ginv s xe k r rest G) as [k1 [G1 Hw]].
+  destruct (do_timeout s r) as [[s1 e1] w] eqn:Ed. cbn [fst snd] in *.
+  pose proof (finish_ginv s1 e1 w rest xe k1 G1 Hw) as G2.
+  destruct (finish (s1, e1, w)) as [s2 e2]. cbn [fst] in G2.
+  destruct (IH s2 xe k1 G2) as [k' G3]. destruct (fire_all do_timeout s2 rest) as [s3 e3]. eauto.
+Qed.
+
+Lemma fire_all_e_ginv due : forall s xt k, GInv s (gk xt due k) ->
+  exists k', GInv (fst (fire_all do_expried s due)) (gk xt [] k').
+Proof.
+  induction due as [|r rest IH]; intros s xt k G; simpl; [eauto|].
+  destruct (do_expried_ginv s xt k r rest G) as [k1 [G1 Hw]].
+  destruct (do_expried s r) as [[s1 e1] w] eqn:Ed. cbn [fst snd] in *.
+  pose proof (finish_ginv s1 e1 w xt rest k1 G1 Hw) as G2.
+  destruct (finish (s1, e1, w)) as [s2 e2]. cbn [fst] in G2.
+  destruct (IH s2 xt k1 G2) as [k' G3]. destruct (fire_all do_expried s2 rest) as [s3 e3]. eauto.
+Qed.
+
+Lemma sweep_t_secs_inv n : forall s t nowv, Inv s -> Inv (fst (sweep_t_secs n s t nowv)).
+Proof.
+  induction n as [|n IH]; intros s t nowv G; simpl; [exact G|].
+  pose proof (collect_timeouts_ginv s [] 0 t nowv (inv_gk s 0 G)) as G1.
+  destruct (collect_timeouts s t nowv) as [s1 due]. cbn [fst snd] in G1.
+  destruct (fire_all_t_ginv due s1 [] 0 G1) as [k' G2].
+  destruct (fire_all do_timeout s1 due) as [s2 e2]. cbn [fst] in G2.
+  pose proof (IH s2 (t + 1)%Z nowv (gk_inv s2 k' G2)) as G3.
+  destruct (sweep_t_secs n s2 (t + 1)%Z nowv) as [s3 e3]. exact G3.
+Qed.
+
+Lemma sweep_e_secs_inv n : forall s t nowv, Inv s -> Inv (fst (sweep_e_secs n s t nowv)).
+Proof.
+  induction n as [|n IH]; intros s t nowv G; simpl; [exact G|].
+  pose proof (collect_expiries_ginv s [] 0 t nowv (inv_gk s 0 G)) as G1.
+  destruct (collect_expiries s t nowv) as [[s1 due] e1]. cbn [fst snd] in G1.
+  destruct (fire_all_e_ginv due s1 [] 0 G1) as [k' G2].
+  destruct (fire_all do_expried s1 due) as [s2 e2]. cbn [fst] in G2.
+  pose proof (IH s2 (t + 1)%Z nowv (gk_inv s2 k' G2)) as G3.
+  destruct (sweep_e_secs n s2 (t + 1)%Z nowv) as [s3 e3]. exact G3.
+Qed.
+
+Lemma inv_scalar s s' : Inv s -> mgrs s' = mgrs s -> store s' = store s -> next s' = next s ->
+  twheel s' = twheel s -> tlong s' = tlong s -> ewheel s' = ewheel s -> elong s' = elong s -> cnt s' = cnt s -> Inv s'.
+Proof. intros G E1 E2 E3 E4 E5 E6 E7 E8. eapply ginv_obs; eauto; rewrite E8; reflexivity. Qed.
+
+Lemma sweep_timeouts_inv s : Inv s -> Inv (fst (sweep_timeouts s)).
+Proof. intros G. unfold sweep_timeouts. apply sweep_t_secs_inv. apply (inv_scalar s); auto. Qed.
+Lemma sweep_expiries_inv s : Inv s -> Inv (fst (sweep_expiries s)).
+Proof. intros G. unfold sweep_expiries. apply sweep_e_secs_inv. apply (inv_scalar s); auto. Qed.
